@@ -36,7 +36,7 @@ def default_playback_replayer(crate_dir, rel_file_of):
 
 
 def run_property(prop, level, harnesses, crate_dir, target_dir, replayer, package=None, jobs=8,
-                 known_matcher=None, env=None, extra_cov=None, run=None, mem_gb=14):
+                 known_matcher=None, env=None, extra_cov=None, run=None, mem_gb=32):
     """harnesses: list[H].  Returns exit code (evidence written)."""
     run = run or Run(prop, level)
     t = tier()
